@@ -21,6 +21,10 @@ func init() {
 	profiles["C04"] = &profile{
 		config: func(r *RNG, thorough bool) *RunConfig {
 			cfg := baseConfig("C04", r, thorough)
+			if ra := NewRNG(Mix(r.U64(), 0x6173796e)); ra.Bool(0.3) {
+				// overlapping gossips of one node (legs held back, lock gaps)
+				cfg.PAsync = 0.1 + 0.3*ra.Float()
+			}
 			if cfg.N0 < 2 {
 				cfg.N0 = 2
 				cfg.Stores = []string{"inmem", "inmem"}
@@ -167,6 +171,10 @@ func init() {
 	profiles["C09"] = &profile{
 		config: func(r *RNG, thorough bool) *RunConfig {
 			cfg := baseConfig("C09", r, thorough)
+			if ra := NewRNG(Mix(r.U64(), 0x6173796e)); ra.Bool(0.3) {
+				// overlapping gossips of one node (legs held back, lock gaps)
+				cfg.PAsync = 0.1 + 0.3*ra.Float()
+			}
 			if cfg.N0 < 2 {
 				cfg.N0 = 3
 				cfg.Stores = []string{"inmem", "inmem", "inmem"}
@@ -218,6 +226,10 @@ func init() {
 	profiles["C10"] = &profile{
 		config: func(r *RNG, thorough bool) *RunConfig {
 			cfg := baseConfig("C10", r, thorough)
+			if ra := NewRNG(Mix(r.U64(), 0x6173796e)); ra.Bool(0.3) {
+				// overlapping gossips of one node (legs held back, lock gaps)
+				cfg.PAsync = 0.1 + 0.3*ra.Float()
+			}
 			if cfg.N0 < 2 {
 				cfg.N0 = 2
 				cfg.Stores = []string{"inmem", "inmem"}
